@@ -104,6 +104,17 @@ def generate(R, tier):
             msgs.append((d, hs))
             payloads.append(msg.hex())
         files = [build_file(R, pkts, msgs) for _ in range(2)]
+        if R.random() < 0.35:
+            # the second file lacks a whole KIND of section the first one has: after loading it on the same object that kind is not loaded (DatabaseError), nothing
+            # of the first file survives
+            drop = R.choice(["[mtu]", "[http:", "[tcp:response]", "[http:request]"])
+            kept, skipping = [], False
+            for l in files[1]:
+                if l.startswith("["):
+                    skipping = l.startswith(drop)
+                if not skipping:
+                    kept.append(l)
+            files[1] = kept or ["[tcp:request]"]
         # a third file that does NOT load (a fault on a late line): a failed load leaves the database, and so every later result, as it was
         bad = list(files[0])
         bad.insert(R.randint(len(bad) // 2, len(bad)), R.choice(["sig = ", "junk line", "label = x", "[tcp]", "sig = 4:64:0:*:1,0:::1:2"]))
